@@ -1416,6 +1416,8 @@ fn find_item<'a>(items: &'a [syn::Item], name: &str) -> Option<&'a syn::Item> {
 struct BlockFinder<'ast, 'b> {
     src: &'b str,
     from: &'b str,
+    /// how many matching blocks to skip first (`@@block #k anchor`)
+    skip: usize,
     found: Option<&'ast syn::Block>,
 }
 impl<'ast, 'b> Visit<'ast> for BlockFinder<'ast, 'b> {
@@ -1431,6 +1433,10 @@ impl<'ast, 'b> Visit<'ast> for BlockFinder<'ast, 'b> {
         for s in &b.stmts {
             let r = s.span().byte_range();
             if anchor_match(stmt_text_no_attrs(self.src, s, r.start, r.end), self.from) {
+                if self.skip > 0 {
+                    self.skip -= 1;
+                    break;
+                }
                 self.found = Some(b);
                 return;
             }
@@ -1877,7 +1883,7 @@ fn main() {
                     let mut lets = String::new();
                     if let Some(from) = d.from.as_deref() {
                         let to = d.to.as_deref().unwrap_or(from);
-                        let mut bf = BlockFinder { src: &src.text, from, found: None };
+                        let mut bf = BlockFinder { src: &src.text, from, skip: 0, found: None };
                         bf.visit_block(f.block);
                         if let Some(blk) = bf.found {
                             let mut on = false;
@@ -1988,7 +1994,15 @@ fn main() {
                     // `@@block anchor`: the block is the innermost one holding a statement that matches
                     // `anchor`; @@from / @@to are then matched among that block's statements only
                     let block_anchor = d.block.as_deref().unwrap_or(from);
-                    let mut bf = BlockFinder { src: &src.text, from: block_anchor, found: None };
+                    // `@@block #k anchor`: the k-th (0-based, in visiting order: inner blocks first) matching block
+                    let (block_skip, block_anchor) = match block_anchor.strip_prefix('#') {
+                        Some(rest) => {
+                            let (k, a) = rest.split_once(' ').unwrap_or((rest, ""));
+                            (k.parse::<usize>().unwrap_or(0), a.trim())
+                        }
+                        None => (0, block_anchor),
+                    };
+                    let mut bf = BlockFinder { src: &src.text, from: block_anchor, skip: block_skip, found: None };
                     bf.visit_block(f.block);
                     let blk = bf.found.unwrap_or_else(|| die(&format!("{ctx}: @@from / @@block anchor not found: {block_anchor}")));
                     let mut a = None;
